@@ -52,6 +52,8 @@ ASSUMPTIONS = [
 ]
 
 TIMEOUT = 20.0
+HANG_TIMEOUT = 3.0  # for an in-memory connection that has nothing left to wait for
+MAX_HANGS = 3  # stop generating scenarios after this many connections that did not end
 logging.getLogger("stepup.core.rpc").setLevel(logging.CRITICAL)
 
 
@@ -648,12 +650,15 @@ async def finish_all(r, sims: list[ConnSim]):
             await sim.apply("e")
         # the implementation may still have handlers the model does not know of: they would hang here
         try:
-            await asyncio.wait_for(asyncio.shield(sim.task), TIMEOUT)
+            await asyncio.wait_for(asyncio.shield(sim.task), HANG_TIMEOUT)
         except (asyncio.TimeoutError, TimeoutError):
             sim.hung = True
             sim.task.cancel()
+            for fut in getattr(sim.handler, "futs", {}).values():
+                if not fut.done():
+                    fut.cancel()
             with contextlib.suppress(BaseException):
-                await asyncio.wait_for(sim.task, TIMEOUT)
+                await asyncio.wait_for(sim.task, HANG_TIMEOUT)
         except BaseException:
             pass
 
@@ -953,7 +958,11 @@ async def correspond_failure_class(ctx):
 async def run_conn_batch(ctx, r, n_batches: int, *, check):
     """Random multi-connection scenarios; `check(sims, streams, handler)` sees each finished batch."""
     newtag = TagSource()
+    hangs = 0
     for b in range(n_batches):
+        if hangs >= MAX_HANGS:
+            ctx.stats.count("conn.aborted-after-hangs")
+            break
         handler = Handler()
         nconn = r.choice([1, 1, 1, 2, 3])
         faults = r.random() < 0.6
@@ -961,17 +970,21 @@ async def run_conn_batch(ctx, r, n_batches: int, *, check):
         sims, plans, streams = new_sims(handler, r, newtag, nconn, faults=faults, big=big)
         await asyncio.wait_for(settle(), TIMEOUT)
         await drive_random(r, sims, plans)
+        hangs += sum(1 for sim in sims if sim.hung)
         await check(sims, streams, handler)
 
 
 async def offset_family(ctx, r, newtag, *, check):
     """EOF, a reset and garbage at every byte offset of a short stream; every two-chunk split."""
+    hangs = 0
     for _ in range(ctx.budget(1, 6)):
         frames, data = gen_stream(r, newtag, nframes=r.choice([1, 2]), allow_terminal=False)
         if r.random() < 0.5:
             data += R._encode_message(99, None)
         for k in range(len(data) + 1):
             for variant in ("eof", "reset", "garbage", "split"):
+                if hangs >= MAX_HANGS:
+                    return
                 handler = Handler()
                 sim = ConnSim(handler, 0)
                 sim.frames, sim.hung = frames, False
@@ -994,6 +1007,7 @@ async def offset_family(ctx, r, newtag, *, check):
                     await sim.apply("b", data[k:])
                     fed = data
                 await finish_all(r, [sim])
+                hangs += int(sim.hung)
                 await check([sim], [fed], handler)
 
 
@@ -1360,19 +1374,24 @@ async def oracle_real_socket(ctx):
     server = R.SocketRPCServer(EchoHandler(), path)
     task = asyncio.create_task(server.serve(stop))
     problems = []
+    n_malformed = 0
     try:
         for _ in range(200):
             if os.path.exists(path):
                 break
             await asyncio.sleep(0.01)
         good = R.SocketAsyncRPCClient(path)
-        if await asyncio.wait_for(good.call.echo(1), TIMEOUT) != 1:
-            problems.append("echo before faults")
+        try:
+            if await asyncio.wait_for(good.call.echo(1), TIMEOUT) != 1:
+                problems.append("echo before faults")
+        except Exception as exc:  # noqa: BLE001
+            problems.append(f"first call: {type(exc).__name__}: {exc}")
         request = R._encode_message(5, R._encode_body(RPCCall("slow", (7,), {})))
         faults = ["connect-close", "garbage", "half-header", "half-body", "call-then-vanish", "not-a-call",
                   "zero-bytes-then-garbage", "close-then-garbage"]
-        n_malformed = 0
         for i in range(ctx.budget(16, 120)):
+            if len(problems) > 5:
+                break
             fault = faults[i % len(faults)]
             rd, wr = await asyncio.wait_for(asyncio.open_unix_connection(path), TIMEOUT)
             if fault == "garbage":
@@ -1414,7 +1433,10 @@ async def oracle_real_socket(ctx):
                 problems.append(f"{type(exc).__name__}: {exc} after {fault}")
             ctx.stats.case(("socket", fault, i))
         await asyncio.sleep(0.1)
-        await asyncio.wait_for(good.close(), TIMEOUT)
+        try:
+            await asyncio.wait_for(good.close(), TIMEOUT)
+        except Exception as exc:  # noqa: BLE001
+            problems.append(f"closing the well-behaved client raised {type(exc).__name__}: {exc}")
         stop.set()
         try:
             await asyncio.wait_for(task, TIMEOUT)
@@ -1503,6 +1525,22 @@ async def replay_drop_after_eof() -> dict:
             "serve": serve_status(sim.task), "reproduced": len(sim.invoked) == 1 and not sim.replies}
 
 
+async def replay_unpicklable_cancels_others() -> dict:
+    """`failure_isolated_negation`: two calls in flight, the first returns a value that cannot be pickled."""
+    handler = Handler()
+    sim = ConnSim(handler, 0)
+    sim.hung, sim.frames = False, []
+    sim.tags[1], sim.tags[2] = 1, 2
+    await asyncio.wait_for(settle(), TIMEOUT)
+    await sim.apply("b", b"".join(R._encode_message(i, R._encode_body(RPCCall("work", (i,), {}))) for i in (1, 2)))
+    await sim.apply("c", (1, "n"))
+    with contextlib.suppress(BaseException):
+        await asyncio.wait_for(sim.task, TIMEOUT)
+    return {"replies": [(c, k) for c, k, _p in sim.replies], "cancelled": list(handler.cancelled),
+            "serve": serve_status(sim.task),
+            "reproduced": handler.cancelled == [2] and [(c, k) for c, k, _p in sim.replies] == [(1, "s")]}
+
+
 async def replay_unknown_reply_id() -> dict:
     """`client_pairing_negation`: a reply with an unknown id fails the other pending call."""
     sim = ClientSim()
@@ -1538,6 +1576,7 @@ async def search(ctx):
     ctx.extra["negation_witnesses_on_real_code"] = {
         "server_exactly_once_negation": await replay_drop_after_eof(),
         "client_pairing_negation": await replay_unknown_reply_id(),
+        "failure_isolated_negation": await replay_unpicklable_cancels_others(),
     }
 
 
@@ -1547,6 +1586,8 @@ async def replay(ctx, detail):
         return {**(await replay_drop_after_eof()), "signature": sig}
     if sig == "client_pairing_negation":
         return {**(await replay_unknown_reply_id()), "signature": sig}
+    if sig == "failure_isolated_negation":
+        return {**(await replay_unpicklable_cancels_others()), "signature": sig}
     await search(ctx)
     return {"reproduced": any(f.signature == sig for f in ctx.findings), "signature": sig,
             "findings": [f.signature for f in ctx.findings]}
